@@ -362,7 +362,12 @@ SPEC = Spec(
         "shapes, contradicting 'exactly when'). R16-DECISION: "
         "are_shape_components_equal forms the difference and returns true only for "
         "a constant AND zero difference over a sorted parameter space; the "
-        "consumers the property names call it."),
+        "consumers the property names call it; every return of the decision "
+        "procedure is integer equality under the isinstance guard or the affine "
+        "test. R16-BINDNAMES: symbolic shape components enter a lowered index "
+        "lambda through dim_to_index_lambda_components with a name generator that "
+        "is seeded with the operand binding names and shared by all calls of a "
+        "loop."),
     not_decided=(
         "That one compiled kernel is right for every size (behaviour of generated "
         "code) and that inferred shapes equal concrete shapes under every "
